@@ -124,6 +124,7 @@ impl ChainDB {
             inner: self.db.transaction(),
             freezer: self.freezer.clone(),
             cache: Arc::clone(&self.cache),
+            deleted_blocks: Default::default(),
         }
     }
 
